@@ -409,6 +409,14 @@ def run_rules(repo: Repo, propmod, tier: str, only_rule: str = None) -> Ctx:
     return ctx
 
 
+def _reference_commit():
+    try:
+        with open(os.path.join(os.path.dirname(os.path.dirname(os.path.abspath(__file__))), "reference", "COMMIT")) as fh:
+            return fh.read().strip()
+    except OSError:
+        return None
+
+
 def write_evidence(propmod, ctx: Ctx, tier: str, seed: int, wall: float, n_viol: int,
                    known_hit: list, selftest: Optional[dict], error: Optional[str] = None):
     if os.environ.get("SA_NO_EVIDENCE"):  # scratch runs against another tree (SA_REPO) must not touch the evidence
@@ -453,6 +461,18 @@ def write_evidence(propmod, ctx: Ctx, tier: str, seed: int, wall: float, n_viol:
         does_not_decide=propmod.DOES_NOT_DECIDE,
         repo_digest=ctx.repo.digest(sorted(ctx.files_seen)) if ctx and ctx.files_seen else None,
     )
+    if ctx:
+        # reference equivalence (sa/refeq.py): which consulted functions differ textually from the reference tree, and with what verdict
+        req = {}
+        for rel in sorted(ctx.files_seen):
+            m = ctx.repo._mods.get(rel)
+            for q, st in (getattr(m, "equiv", {}) or {}).items():
+                if st != "identical":
+                    req["%s:%s" % (rel, q)] = st
+        cov["reference_equivalence"] = dict(
+            rule="functions of the consulted files that are not textually identical to /verif/reference: 'equivalent' = same normal form (sa/nf.py), the rules were "
+                 "given the reference function; 'different'/'new' = analysed as they are",
+            reference_commit=_reference_commit(), non_identical=req)
     if selftest is not None:
         cov["selftest"] = selftest
     if error:
@@ -463,7 +483,10 @@ def write_evidence(propmod, ctx: Ctx, tier: str, seed: int, wall: float, n_viol:
         seed=seed,
         level="other",
         coverage=cov,
-        assumptions=list(propmod.ASSUMPTIONS),
+        assumptions=list(propmod.ASSUMPTIONS) + [
+            "the rules hold on the reference tree /verif/reference (commit in reference/COMMIT), where every one of them was confirmed",
+            "reference equivalence (sa/nf.py), used only for functions that differ textually from the reference: expressions other than calls of mutating methods "
+            "have no order-dependent side effects; `*` commutes; real-number algebra; an unused pure binding may be dropped; message texts of raise/warn are not behaviour"],
         wall_s=round(wall, 3),
         violations=n_viol,
     )
